@@ -50,6 +50,18 @@ def run(tier):
     conform(v, wd, "commit-storage-fault-sweep-sqlite", g3, sweep[:len(sweep) // 2], invs=TR_INVS,
             storage="sqlite", flush=0)
 
+    # ... including commits that add tasks to the working set (more storage calls)
+    gp = rconsts(Replicas={"r1"}, Tasks={"u1", "u2"}, Props={"status"}, Vals={"pending", "completed"},
+                 Times={1}, Statuses={"pending", "completed"}, Alphabet={"C", "S"}, MaxBatch=3,
+                 MaxEdits=1, MaxPending=3, MaxChain=1)
+    schp, _ = rgen(wd, "gen-pending-batches", gp, timeout=300)
+    pend = [h for h in schp if any(o.get("v") == "pending" for st in h for o in st.get("ops", []))]
+    sweep2 = storage_fault_sweep(pend[-12:] if thorough else pend[-4:], "Edit", 18, per=None)
+    v.distinct += distinct_count(sweep2)
+    conform(v, wd, "pending-commit-fault-sweep-mem", gp, sweep2, invs=TR_INVS, flush=0)
+    conform(v, wd, "pending-commit-fault-sweep-sqlite", gp, sweep2[:len(sweep2) // 2],
+            invs=TR_INVS, storage="sqlite", flush=0)
+
     v.finish("model_checking",
              rule="TLC enumerates all batches of length <= 2-3 over {create, delete, set, remove, "
                   "undo point} x 2 tasks, valid or not, on every prior state (exhaustive), and "
